@@ -99,6 +99,15 @@ public:
 	bool open(void *, size_t , int = ::mpt::stream::Read);
 	
 	virtual void close();
+	/* disable copy: stream data, pending replies and reply context are singular */
+# if __cplusplus >= 201103L
+	stream(const stream &) = delete;
+	stream & operator =(const stream &) = delete;
+# else
+private:
+	stream(const stream &);
+	stream & operator =(const stream &);
+# endif
 protected:
 	::mpt::stream *_srm;
 	command::array _wait;
